@@ -529,6 +529,9 @@ func (g *fedGen) generate() {
 		default:
 			for j, s := range sh.at {
 				t := g.svc[s].get(sh.name)
+				if sh.mode == "mixed" {
+					t.Impl = nil
+				}
 				if sh.mode == "mixed" && j < 2 {
 					t.Fields = []gField{{Name: "mx", Type: "Int"}, {Name: "my", Type: "String"}}
 					continue
@@ -1197,6 +1200,15 @@ func inputItems(c mgCase) ([][]string, []*ast.Schema, error) {
 	schemas := make([]*ast.Schema, len(in))
 	for i, x := range in {
 		items[i] = schemaItems(x.Schema)
+		// a "broken remote union" declares its members through PossibleTypes only
+		for n, d := range x.Schema.Types {
+			if d.Kind == ast.Union && len(d.Types) == 0 {
+				for _, m := range x.Schema.PossibleTypes[n] {
+					items[i] = append(items[i], "M|"+n+"|"+m.Name)
+				}
+			}
+		}
+		items[i] = dedupSorted(hx.SortedStrings(items[i]))
 		schemas[i] = x.Schema
 	}
 	return items, schemas, nil
@@ -1220,4 +1232,34 @@ func countCase(ctx *Ctx, c mgCase, outs []mgOutcome) {
 		}
 		ctx.Rep.Count("outcome " + k)
 	}
+}
+
+// failSet keeps the first failure of every category of one case (a defect shows under many permutations).
+type failSet struct {
+	seen map[string]bool
+	list []hx.Failure
+}
+
+func (fs *failSet) add(cat string, f hx.Failure) {
+	if fs.seen == nil {
+		fs.seen = map[string]bool{}
+	}
+	if fs.seen[cat] {
+		return
+	}
+	fs.seen[cat] = true
+	fs.list = append(fs.list, f)
+}
+
+func identityOutcome(outs []mgOutcome) *mgOutcome {
+	for k := range outs {
+		id := true
+		for i, x := range outs[k].Perm {
+			id = id && i == x
+		}
+		if id {
+			return &outs[k]
+		}
+	}
+	return nil
 }
